@@ -2,7 +2,7 @@
    Close, connection losses, the steps of the recovery loop (loop head, dial done, auth done), request writes and
    goroutine exits. *)
 From Coq Require Import List NArith.
-From OAP Require Import Base.Bytes Base.Res Model.Life Proofs.LifeP.
+From OAP Require Import Base.Bytes Base.Res Model.Life Proofs.LifeP Model.CloseLock Proofs.CloseLockP.
 Import ListNotations.
 Local Open Scope N_scope.
 
@@ -37,3 +37,23 @@ Print Assumptions C14_never_panics.
 Print Assumptions C14_close_callback_exactly_once.
 Print Assumptions C14_close_is_final.
 Print Assumptions C14_close_is_one_step.
+
+(* Close against another closer of the same connection (Model/CloseLock.v): client.Close holds the client's read lock
+   while conn.Close may wait for the connection's once, whose body - run by the reader that saw the peer go away -
+   ends in the close callback that takes the client's WRITE lock unless the client is closed.  For any number of
+   other read-lock holders and every interleaving: some thread can always move until all are done, every step
+   decreases a measure (so Close returns), and the cycle user-waits-for-once / reader-waits-for-write-lock is
+   unreachable.  Without the closed test in the callback the same schedule is a deadlock (witness). *)
+Theorem C14_close_never_deadlocks_with_a_closing_reader : forall n s,
+  reachable n s -> CloseLock.final s = false -> CloseLock.enabled s = true.
+Proof. exact no_deadlock. Qed.
+Theorem C14_close_lock_steps_terminate : forall s w s', CloseLock.step s w = Some s' -> (measure s' < measure s)%nat.
+Proof. exact step_decreases. Qed.
+Theorem C14_no_close_cycle : forall n s, reachable n s -> (u s = U3 \/ u s = U3body) -> r_wants_w (r s) = false.
+Proof. exact no_close_cycle. Qed.
+Theorem C14_write_lock_excludes_readers : forall n s, reachable n s -> wr s = true -> u_holds_r (u s) = false /\ env s = 0%nat.
+Proof. exact writer_excludes_readers. Qed.
+Print Assumptions C14_close_never_deadlocks_with_a_closing_reader.
+Print Assumptions C14_close_lock_steps_terminate.
+Print Assumptions C14_no_close_cycle.
+Print Assumptions C14_write_lock_excludes_readers.
